@@ -41,6 +41,11 @@ type RunReq struct {
 	Invoke     []Invocation               `json:"invoke"`    // if set: host invocations instead of main (vm only)
 	CancelAt   int                        `json:"cancel_at"` // cancel at the k-th poll (needs verif hooks); 0 = never
 	Trace      bool                       `json:"trace"`
+	TraceInstr bool                       `json:"trace_instr"`
+	Jitter     int64                      `json:"jitter"` // seed of random yields inside the hooks (0 = none)
+	Sched      []SchedStep                `json:"sched"`  // schedule to follow (hooks act as gates)
+	Procs      int                        `json:"procs"`  // GOMAXPROCS for this run
+	SchedOff   int64                      `json:"sched_offset"`
 	WantTypes  bool                       `json:"want_types"`
 }
 
@@ -320,6 +325,9 @@ func doRun(req *RunReq) (*RunRes, error) {
 	}
 	ctx, cancel := context.WithTimeout(context.Background(), timeout)
 	defer cancel()
+	if req.Procs > 0 {
+		defer runtime.GOMAXPROCS(runtime.GOMAXPROCS(req.Procs))
+	}
 	baseG := runtime.NumGoroutine()
 
 	switch req.Backend {
@@ -332,7 +340,27 @@ func doRun(req *RunReq) (*RunRes, error) {
 		}
 		exec := vmValue.Executor(vmExec{inner: homescript.TestingVmExecutor{PrintBuf: new(string), PintBufMutex: &sync.Mutex{}}, st: st})
 		tracer := startTrace(req)
+		if rec != nil {
+			rec.cancel = cancel
+		}
 		vm := hmsrt.NewVM(compiled, exec, &ctx, &cancel, homescript.TestingVmScopeAdditions(), limitsOf(req))
+		if rec != nil {
+			rec.mu.Lock()
+			rec.vm = &vm
+			rec.mu.Unlock()
+			if rec.gate != nil {
+				r := rec
+				rec.gate.offset = req.SchedOff
+				rec.gate.activate(func() {
+					// lock order gate -> recorder (the hook handler passes the gate before it takes the recorder's mutex)
+					r.mu.Lock()
+					r.cancelled = true
+					r.add(map[string]any{"e": "Cancel", "c": -1})
+					r.mu.Unlock()
+					cancel()
+				})
+			}
+		}
 		if len(req.Invoke) == 0 {
 			r := vm.SpawnSync(hmsrt.MainFn(), nil, nil)
 			if r.Exception != nil {
@@ -346,6 +374,15 @@ func doRun(req *RunReq) (*RunRes, error) {
 		}
 		res.Trace = tracer.stop()
 		res.Residue = map[string]any{"cores": len(vm.Cores.Cores)}
+		if rec != nil {
+			res.Residue["after_cancel"] = rec.afterCancel
+			res.Residue["polls"] = rec.polls
+			if rec.gate != nil {
+				res.Residue["sched_pos"] = rec.gate.pos
+				res.Residue["sched_len"] = len(rec.gate.sched)
+				res.Residue["diverged"] = rec.gate.diverge
+			}
+		}
 	case "tree":
 		exec := treeValue.Executor(treeExec{inner: homescript.TestingTreeExecutor{Output: new(string)}, st: st})
 		lim := req.TreeLimit
@@ -353,9 +390,15 @@ func doRun(req *RunReq) (*RunRes, error) {
 			lim = 20000
 		}
 		tracer := startTrace(req)
+		if rec != nil {
+			rec.cancel = cancel
+		}
 		i := homescript.Run(lim, mods, req.Entry, exec, homescript.TestingInterpreterScopeAdditions(), &ctx)
 		res.Outcome = treeOutcome(i)
 		res.Trace = tracer.stop()
+		if rec != nil {
+			res.Residue = map[string]any{"after_cancel": rec.afterCancel, "polls": rec.polls}
+		}
 	default:
 		return nil, fmt.Errorf("unknown backend %q", req.Backend)
 	}
